@@ -34,7 +34,38 @@ def ctor_inline(caller, callee, depth):
     return callee.nname in CTOR_LIKE
 
 
-INLINE = {'none': None, 'small': small_inline, 'ctor': ctor_inline}
+def getter_inline(caller, callee, depth):
+    """Pure accessors only: straight-line crate functions that write nothing through a reference and call nothing but
+    other pure accessors (`num_members()`, `num_active()`, `identity()`, `Member::id()` ...).  Used to put conditions
+    in a canonical form in which `self.num_members()` and `self.members.num_active()` are the same term."""
+    g = callee.__dict__.get('_getter')
+    if g is not None:
+        return g
+    callee._getter = False          # cycle guard
+    ok = callee.kind != 'Closure'
+    nb = 0
+    for bl in callee.blocks:
+        if bl['cleanup']:
+            continue
+        nb += 1
+        for st in bl['stmts']:
+            if 'lhs' in st and any(e['k'] == 'deref' for e in st['lhs']['proj']):
+                ok = False
+            if 'lhs' in st and st['rv']['k'] in ('ref', 'rawptr') and st['rv'].get('mut', True):
+                ok = False
+        t = bl['term']
+        if t['k'] == 'call':
+            from .lib.facts import strip_generics
+            tgt = callee.facts.by_name.get(strip_generics(t['res']), [])
+            if len(tgt) != 1 or not getter_inline(callee, tgt[0], depth + 1):
+                ok = False
+        elif t['k'] not in ('return', 'goto', 'drop', 'unreachable'):
+            ok = False
+    callee._getter = ok and nb <= 4
+    return callee._getter
+
+
+INLINE = {'none': None, 'small': small_inline, 'ctor': ctor_inline, 'getters': getter_inline}
 
 _KNOWN = None
 
